@@ -64,3 +64,22 @@ package receiver
 //@ invariant [range] 0 <= _n && _n <= len(req.VerificationVector) && len(vVec) == len(req.VerificationVector) && fresh(vVec)
 //@ loop #2
 //@ invariant [range] 0 <= _n && _n <= len(retVVec) && len(resVVec) == len(retVVec) && fresh(resVVec)
+
+// ---- construction: the object handed out has every collaborator the methods rely on ----
+//@ func (Parameter).apply
+//@ requires p != nil
+//@ modifies p.logLevel, p.process, p.peers
+
+//@ func parseAndCheckParameters
+// (the guard in the loop tests the slice, not the option: a nil option would panic; every caller passes non-nil options)
+//@ requires [options] forall i int :: 0 <= i && i < len(params) ==> params[i] != nil
+//@ ensures [err] result1 != nil ==> result0 == nil
+//@ ensures [ok] result1 == nil ==> result0 != nil && result0.process != nil && result0.peers != nil
+//@ loop #1
+//@ invariant [range] 0 <= _n && _n <= len(params)
+
+//@ func New
+//@ requires [options] forall i int :: 0 <= i && i < len(params) ==> params[i] != nil
+//@ modifies log
+//@ ensures [err] result1 != nil ==> result0 == nil
+//@ ensures [ok] result1 == nil ==> wiredReceiver(result0)
